@@ -21,7 +21,9 @@ prop("C20",
      floor={"quick": 1000, "thorough": 100000},
      rule="glob.Glob compared with the declarative definition on every (pattern, input) pair of the enumerated "
           "small-alphabet spaces (distinct by enumeration) plus random long pairs; MatchHost / VirtualHosts.Match on "
-          "block lists built from those patterns with unique markers. Non-trivial = a pair (or block list) on which the "
+          "block lists built from those patterns with unique markers. "
+          "Long repetitive names (up to 260 bytes) against patterns that need quadratic backtracking, also through config.MatchHostPattern. "
+          "Non-trivial = a pair (or block list) on which the "
           "real function returned (or panicked) and the reference was evaluated; distinct by enumeration index or by "
           "hash of (pattern, input).",
      level_text="Differential monitoring of the real glob.Glob / ClientConfig.MatchHost / VirtualHosts.Match against the "
@@ -65,7 +67,9 @@ prop("C04",
           "names of every id type incl. empty and 252-byte labels; validity windows around a clock grid), parsed with the "
           "repository's ReadFrom and verified with the real Store.VerifyLeaf/VerifyParent for random trust-store subsets, "
           "presented intermediates, requested names and clock values (bounds +-1s, +-1ns). Plus every single-bit flip of the "
-          "raw leaf and raw presented intermediate of verified chains, and chains produced by the issuing API. Non-trivial = "
+          "raw leaf and raw presented intermediate of verified chains, and chains produced by the issuing API. "
+          "A parse that fails (truncated or garbled bytes) precedes about a third of the parses. "
+          "Non-trivial = "
           "a query whose real verdict was compared with the reference; distinct by (forest, query index, reference clause) "
           "or by bit position.",
      level_text="Differential monitoring of certs.Store.VerifyLeaf / certs.VerifyParent against a reference verifier evaluated "
@@ -123,7 +127,10 @@ prop("C18",
           "request framing; port-forward request; DH/signing/KEM public-key text). Three monitors per codec: generated values "
           "with every field at boundary lengths and all enum values (decode(encode(v)) == v and nothing left over); mutated "
           "valid encodings kept when the decoder accepts (decode(encode(decode(b))) == decode(b)); unrepresentable values "
-          "(encoder must refuse, else output||sentinel must decode to the value and leave the sentinel). Non-trivial = a value "
+          "(encoder must refuse, else output||sentinel must decode to the value and leave the sentinel). "
+          "Every fourth refused Open is made behind data the caller already holds in dst (with room to append in place); that data must be unchanged afterwards. "
+          "PEM bundles of one to four certificates compared with the same certificates decoded one by one. "
+          "Non-trivial = a value "
           "that was encoded and decoded, or a byte string the decoder accepted; distinct by (codec, batch, index) or by bytes.",
      level_text="Round-trip, decode-encode-decode stability and refusal-of-unrepresentable monitors over the real encoders/decoders "
                 "(unexported ones through verif-tagged accessors), field-by-field comparison (times by Unix seconds).",
@@ -148,6 +155,7 @@ prop("C02",
           "Every batch starts and ends with an honest handshake that must complete with equal session ids and keys, distinct "
           "directional keys and a data message each way; all session keys of the run must be pairwise distinct. "
           "Further families: bit flips at a stride over whole messages, truncation repeated thousands of times per message (the receive buffer keeps the tail of earlier datagrams), and servers whose handshake timer fires at once - in a bubble and, every third repetition, on the real clock, where the timer can beat a message that is being processed; whatever then completes on both sides must carry the same identifier and keys. "
+          "Single fields (the session identifier, windows anywhere in the message) copied from the corresponding message of a handshake whose session is still live. "
           "Non-trivial = a "
           "tampered datagram that was actually delivered and whose outcome was observed; distinct by (mode, message, kind, offset, mask, length).",
      level_text="Exhaustive fault enumeration over byte positions and truncation lengths of every handshake datagram as actually "
@@ -171,7 +179,9 @@ prop("C01",
           "offsets, validity windows). Counterparts are the real endpoint code with inconsistent configuration. Oracle: success "
           "(client Handshake()==nil; server Accept offers the flow in discoverable mode / ReadMsg delivers data in both modes, "
           "also after forged and replayed transport packets are injected for the session) implies legitimacy = policy(cert) AND "
-          "holds-key, known by construction. Non-trivial = a grid cell whose handshake ran to an outcome; distinct by "
+          "holds-key, known by construction. "
+          "Every class is presented twice in a row to verifiers that share one trust store; the veto callback is combined with the store, skip-verification and authorized-keys policies; key sets have a history; peers may present low-order keys or play the all-zero secret. "
+          "Non-trivial = a grid cell whose handshake ran to an outcome; distinct by "
           "(mode, direction, policy, class).",
      level_text="Scenario-grid exploration with ground truth by construction; every cell runs the real handshake code of both "
                 "parties over the simulated network in virtual time. MAC/tag garbage and cross-session transplants of every "
@@ -194,6 +204,7 @@ prop("C19",
           "type byte, and the valid request after the freshness window (stale, from its own and a foreign address); the wire log "
           "must show no datagram from the server except for the fresh control request. "
           "Further families: cookies minted by another server instance, across one and two key rotations, and acknowledgements the harness builds itself (verif export) with a consistent transcript over a key that differs from the hello's key in its first or last bytes, in one bit, or altogether. "
+          "Hidden servers are configured statically or through the certificate callbacks (no top-level keys), with handshake time-outs from none to five minutes; the stale request is delivered at six ages between 6 and 400 s. "
           "Non-trivial = a stimulus delivered to "
           "the server whose reaction (tables, emitted datagrams) was observed; distinct by (repetition, stimulus).",
      level_text="Enumeration of cookie-binding and hidden-silence stimuli against the real server on a simulated wire, observed "
@@ -220,6 +231,7 @@ prop("C03",
           "additive phases, sessions not closed, probes delivered; offline on the wire log: packet counters pairwise distinct per "
           "(session, sender), no plaintext marker / SNI / certificate window in any datagram. Race detector on. "
           "Further families: recorded datagrams replayed at chosen distances behind the newest counter while packets are held back to the window edge, tampering chosen by datagram size, read buffers shorter than the message, and every shape of client handshake limit (time-out, absolute deadline, both, neither) followed by traffic long after it on a simulated socket that honours an expired read deadline; a case that stalls a bubble is re-executed in real time. "
+          "Copies of the flow's own handshake datagrams arrive again from the genuine address after the session is up (at once and seconds later); messages written long after every handshake timer of the server has fired still arrive. "
           "Non-trivial = a "
           "schedule / size / writer case that ran to the end with every delivered message judged; distinct by case index.",
      level_text="Exploration of seeded datagram-level adversary schedules against the real transport with online per-message "
@@ -244,6 +256,7 @@ prop("C15",
           "by synctest quiescence. After every step the following endpoint writes one message; oracle: its destination on the "
           "wire (and the white-box remoteAddr) equals the source of the latest genuine, first-delivered packet. "
           "Further families: bursts across replay-window blocks, a follower whose receive queue is full, writes queued behind a held socket write, roaming under continuous sending (real time), and IPv6 addresses that keep the port of the current address and differ from it in the address alone. "
+          "Roaming while a three-fragment Write is held at its first fragment (the remaining fragments go to the new address); server replies copied from a third address during the handshake (the client keeps talking to the address it dialled). "
           "Non-trivial = a "
           "history that ran to the end with every step judged; distinct by (role, step sequence).",
      level_text="Exploration of seeded roaming/abuse histories against the real transport on a simulated wire in virtual time, "
@@ -270,6 +283,7 @@ prop("C10",
           "batch of <=64 datagrams the established session still carries a message each way and an honest handshake from a fresh "
           "address completes and carries a message each way. "
           "Further families: length fields inside the encrypted certificate vectors set in flight by XOR, half-open session ids, and real clients naming unknown and known hosts with every kind of identifier type byte against a server built by hopserver.NewHopServer (host blocks only) on a loopback UDP socket, followed by a control handshake that must succeed. "
+          "Acknowledgements built by the harness (verif export) whose cookie, transcript and MAC are valid and whose encrypted server-name field holds name blocks no encoder produces; one-byte fields of name blocks set in flight by XOR. The probe accepts the pending backlog before its own handshake. "
           "Non-trivial = a datagram consumed by a live endpoint before a probe "
           "that was judged.",
      level_text="Fault enumeration (truncations and type x length grid of every message type) plus seeded mutation/random "
@@ -295,7 +309,9 @@ prop("C08",
           "schedule's heal time + 30 virtual minutes. Reassembly core driven directly: every arrival sequence of length <=7 (quick) "
           "/ <=8 (thorough) over {frame1..frame5, FIN} with duplicates, from 6 starting frame numbers around the 32-bit wrap, "
           "buffer/closed/ack compared with a set-based model after every step; random long arrival orders with far-out-of-window "
-          "frame numbers. Non-trivial = a bubble whose streams were read and checked to the end, or an enumerated arrival sequence.",
+          "frame numbers. "
+          "Half of the stream runs execute with seeded yields at the instrumented points (readers, the muxer's receiver, senders). "
+          "Non-trivial = a bubble whose streams were read and checked to the end, or an enumerated arrival sequence.",
      level_text="Exploration of seeded, healing fault schedules against the real muxers in virtual time with an online "
                 "prefix-of-stream monitor and a bounded-progress completeness check; exhaustive differential monitoring of the "
                 "reassembly core over the bounded arrival-sequence space.",
@@ -373,6 +389,7 @@ prop("C16",
           "the local Close returned; bytes read are always the peer's stream; after WaitForClose returned Read gives buffered data "
           "then io.EOF only. A bubble stall is re-executed in real-time mode and judged by the two-dump rule. "
           "Further families: a network that is dead from the first datagram, transport writes that fail while reads go on, tubes requested around the Stop instant, a duplicate-ack storm followed by close (with the muxers' idle time-out near and far), and second copies of set-up frames arriving in trains across the few milliseconds a Stop takes. "
+          "A closing goroutine held up for 5-80 ms at the instrumented point inside sender.Close after request/response traffic has brought the retransmission period down to milliseconds (real time); close during initiation after a few scheduler turns. "
           "Non-trivial = an "
           "execution with a distinct interleaving signature (hash of the observed order of hook points).",
      level_text="Exploration of programs x schedules x loss patterns with the race detector, virtual-time bounded-termination "
@@ -400,7 +417,9 @@ prop("C17",
           "set: every call returns once both sides are closed, read errors are only EOF / deadline / overflow, all Close callers get "
           "the same result. (c) silent peer: three concurrent Handshake callers must all get the same error wrapping "
           "os.ErrDeadlineExceeded within 3 x HSTimeout + 20 virtual s, in both modes; data queued before Close is returned before EOF "
-          "(Client and Handle). Race detector: a report whose racing access is in transport/ or common/ is a violation. Non-trivial = "
+          "(Client and Handle). Race detector: a report whose racing access is in transport/ or common/ is a violation. "
+          "Socket write errors (transient or lasting) on the server handle's or the client's socket, then further Write/WriteMsg/Close (real time); the server's socket closed by its owner before or while Server.Close runs. "
+          "Non-trivial = "
           "a queue history with at least one concurrent pair of operations, or a transport program, distinct by interleaving signature.",
      level_text="Exploration of small concurrent programs with hook-based schedule perturbation; linearizability checking of "
                 "recorded queue histories (porcupine); termination, error-kind and idempotence monitors; race detector scoped to "
@@ -426,7 +445,9 @@ prop("C05",
           "raw client (transport handshake with the key, user-auth tube); histories of file rewrites, AddAuthGrant calls and "
           "login attempts by 3 keys as known, unknown and empty users, authgrants on/off, transport gate shared with the "
           "server's key set or open; a ledger of live grants; confirmed implies listed now or a live grant for exactly (user, "
-          "key), which is then consumed. Refusals of allowed logins are counted, not judged (failing closed). Non-trivial = a "
+          "key), which is then consumed. Refusals of allowed logins are counted, not judged (failing closed). "
+          "Keys that hold several grants for one user, some run out and some live; simultaneous AuthorizeKey calls for one user's file on a file system that is slow to open, with listed and unlisted keys (each caller gets the verdict for its own key). "
+          "Non-trivial = a "
           "decision on a distinct (file class, line kinds, outcome).",
      level_text="Exploration by generated files, I/O faults and login histories against a reference reader and a grant ledger, "
                 "observing the real AuthorizeKey results and the confirmation byte a client sees.",
@@ -456,7 +477,9 @@ prop("C07",
           "(bipartite matching, liberal at both time boundaries); nothing authorizes issuing grants; after the login the "
           "server's grant map holds nothing for (user, key); the same key cannot log in again, another key never. 14 directed "
           "histories plus seeded ones. The race build runs the same histories under the race detector (scope: reports with a "
-          "frame in hopserver/target.go, authgrants/ or authkeys/ - the grant bookkeeping; other reports are listed as observations). Non-trivial = a history played to the end with the oracle evaluated.",
+          "frame in hopserver/target.go, authgrants/ or authkeys/ - the grant bookkeeping; other reports are listed as observations). "
+          "Directed histories: live grants stored behind one that has run out (every command asked for twice), windows with sub-second bounds, two forwards (and a command) asked for at the same moment, grants for the 26th century. "
+          "Non-trivial = a history played to the end with the oracle evaluated.",
      level_text="Exploration by directed and generated grant/request histories against a reference ledger with a matching "
                 "oracle, observing process starts, dials, listeners and stored grants at the host boundary.",
      level_note="Sessions admitted by a listed key are not limited by grants and serve as principals and controls. Whether a "
@@ -479,7 +502,9 @@ prop("C06",
           "written to the target decoded as IntentCommunication, target decision, each answer read by the delegate incl. extra "
           "ones) are logged with a global sequence number; offline predicate per request: exactly one answer; a forwarded intent "
           "is preceded by an accepting approval of the same request and equals the requested and the approved intent field by "
-          "field; a confirmation needs the target's confirmation with the grant stored. Non-trivial = a request sequence run to "
+          "field; a confirmation needs the target's confirmation with the grant stored. "
+          "The same foreign target asked for again after it was refused; targets that deny without giving a reason; a connection attempt that fails once; predicate added: an intent is forwarded only over a connection to the target it names. "
+          "Non-trivial = a request sequence run to "
           "the end with the predicate evaluated; distinct by enumeration or sequence.",
      level_text="Exhaustive over short decision sequences, exploration over random ones, with an offline trace predicate over the "
                 "recorded event log of the real principal and target code.",
